@@ -7,3 +7,7 @@ import (
 )
 
 func TestCheck(t *testing.T) { vworld.RunCheck(t, "C07") }
+
+// TestSolo is part "solo" of C07: one real participant against a virtual network that obeys the
+// signature ledger (vworld/solo.go).
+func TestSolo(t *testing.T) { vworld.RunSolo(t) }
